@@ -366,6 +366,11 @@ func (u *Unit) lockOp(f *Frame, st *State, mu Val, mode int, pos token.Pos) {
 		if st.held[k] == 0 && !f.pure {
 			u.oblige(f, st, "unlock-unheld", u.exprText(pos, "Unlock"), "false", pos)
 		}
+		if st.held[k] == 2 {
+			if t := u.lockInv(f, st, mu.Loc); t != "" && !f.pure {
+				u.oblige(f, st, "lock-inv", u.exprText(pos, "Unlock"), t, pos)
+			}
+		}
 		st.held[k] = 0
 		return
 	}
@@ -376,6 +381,31 @@ func (u *Unit) lockOp(f *Frame, st *State, mu Val, mode int, pos token.Pos) {
 	// acquiring a lock: everything it guards may have been changed by other
 	// goroutines since it was last held by us.
 	u.havocGuarded(f, st, mu.Loc)
+	if t := u.lockInv(f, st, mu.Loc); t != "" {
+		u.assume(st, t)
+	}
+	if u.lockState == nil {
+		u.lockState = st.clone()
+	}
+}
+
+// lockInv evaluates the declared lock invariant of the mutex at location mu.
+func (u *Unit) lockInv(f *Frame, st *State, mu *Loc) string {
+	if len(mu.Path) == 0 || mu.Kind != LHeap {
+		return ""
+	}
+	owner := *mu
+	owner.Path = mu.Path[:len(mu.Path)-1]
+	if len(owner.Path) != 0 {
+		return ""
+	}
+	g := u.ctx.guardDecl(owner.RootTy, mu.Path[len(mu.Path)-1].Name)
+	if g == nil || g.Inv == nil {
+		return ""
+	}
+	vars := map[string]Val{g.Recv: {T: owner.Ref, Ty: types.NewPointer(owner.RootTy)}}
+	env := &SpecEnv{u: u, st: st, old: st, vars: vars, oldVars: vars, pkg: g.Pkg, fr: &Frame{u: u, fn: f.fn, pure: true}}
+	return env.boolExpr(g.Inv.Expr)
 }
 
 // havocGuarded replaces the guarded fields of the struct owning mutex location mu by fresh values.
@@ -400,6 +430,8 @@ func (u *Unit) havocGuarded(f *Frame, st *State, mu *Loc) {
 		l.Path = append(append([]Step{}, owner.Path...), Step{Field: i, Name: fl.Name(), Ty: fl.Type()})
 		nv := u.freshVal("acq_"+fl.Name(), fl.Type(), st)
 		u.storeLoc(st, &l, nv.T)
+		lc := l
+		u.frameExtra = append(u.frameExtra, specLoc{loc: &lc})
 		// contents of guarded maps / slices are havocked too
 		switch t := fl.Type().Underlying().(type) {
 		case *types.Map:
@@ -408,13 +440,15 @@ func (u *Unit) havocGuarded(f *Frame, st *State, mu *Loc) {
 			u.mapGet(st, t)
 			st.heaps[dn] = u.em.fresh(dn, ds)
 			st.heaps[vn] = u.em.fresh(vn, vs)
+			u.frameSkip[dn] = true
+			u.frameSkip[vn] = true
 		}
 	}
 }
 
 // checkGuard emits a guarded-by obligation for an access to location l.
 func (u *Unit) checkGuard(f *Frame, st *State, l *Loc, write bool, pos token.Pos) {
-	if f.pure || len(l.Path) == 0 || l.Kind != LHeap {
+	if f.pure || len(l.Path) == 0 || l.Kind != LHeap || u.ctx.isGhostFile(u.fn) {
 		return
 	}
 	// find the first field step whose owner struct declares a guard for it
@@ -525,7 +559,7 @@ func (u *Unit) havocAssigns(f *Frame, st *State, env *SpecEnv, con *Contract, po
 				_ = mt
 				continue
 			}
-			st.heaps[k] = u.em.fresh(k, u.em.heapSort(k, t))
+			st.heaps[k] = u.em.fresh(k, u.heapSortU(k, t))
 		}
 		n := u.em.fresh("alloc", "Int")
 		u.assume(st, fmt.Sprintf("(>= %s %s)", n, st.alloc))
@@ -549,6 +583,16 @@ func (u *Unit) havocAssigns(f *Frame, st *State, env *SpecEnv, con *Contract, po
 		ls := env.lvalue(a)
 		for _, l := range ls {
 			switch {
+			case l.mapTy != nil:
+				dn, vn := u.mapHeaps(l.mapTy)
+				ds, vs := u.mapSorts(l.mapTy)
+				d, v := u.mapGet(st, l.mapTy)
+				u.heapTy[dn], u.heapTy[vn] = l.mapTy, l.mapTy
+				ks := u.em.sortOf(l.mapTy.Key())
+				fd := u.em.fresh("havocdom", fmt.Sprintf("(Array %s Bool)", ks))
+				fv := u.em.fresh("havocval", fmt.Sprintf("(Array %s %s)", ks, u.em.sortOf(l.mapTy.Elem())))
+				st.heaps[dn] = u.em.define(dn, ds, fmt.Sprintf("(store %s %s %s)", d, l.mapRef, fd))
+				st.heaps[vn] = u.em.define(vn, vs, fmt.Sprintf("(store %s %s %s)", v, l.mapRef, fv))
 			case l.whole:
 				// whole backing array of a slice
 				n := u.em.elemHeapName(l.loc.RootTy)
